@@ -147,6 +147,45 @@ def validate_traces(module: str, traces: list[dict], *, cfg: str | None = None, 
 
 
 # ----------------------------------------------------------------------------------------------
+# corpus cache: several properties are decided on one corpus; running their checks in a row must not redo it, while any edit
+# under /repo, /verif/specs or /verif/harness invalidates it
+
+def tree_hash() -> str:
+    import hashlib
+    h = hashlib.sha256()
+    for root in (REPO / "openpectus", VERIF / "specs", VERIF / "harness"):
+        for f in sorted(root.rglob("*")):
+            if f.suffix in (".py", ".tla", ".cfg", ".json", ".rst") and f.is_file() and "frontend" not in f.parts \
+                    and "__pycache__" not in f.parts:
+                h.update(str(f.relative_to(root)).encode())
+                h.update(f.read_bytes())
+    kf = VERIF / "known_findings.json"
+    return h.hexdigest()[:24]
+
+
+def cached(name: str, ctx: "Ctx", compute):
+    """compute() -> JSON-able result; cached under .cache/<name>-<tier>-<seed>-<tree hash>.json"""
+    import pickle
+    cdir = VERIF / ".cache"
+    cdir.mkdir(exist_ok=True)
+    key = cdir / f"{name}-{ctx.tier}-{ctx.seed}-{tree_hash()}.pkl"
+    if key.exists() and not os.environ.get("VERIF_NOCACHE"):
+        try:
+            with open(key, "rb") as fh:
+                return pickle.load(fh), True
+        except Exception:
+            pass
+    res = compute()
+    for old in cdir.glob(f"{name}-{ctx.tier}-{ctx.seed}-*.pkl"):
+        old.unlink(missing_ok=True)
+    tmp = key.with_suffix(".tmp%d" % os.getpid())
+    with open(tmp, "wb") as fh:
+        pickle.dump(res, fh)
+    tmp.replace(key)
+    return res, False
+
+
+# ----------------------------------------------------------------------------------------------
 # known findings
 
 def load_findings():
